@@ -52,3 +52,11 @@ func HasPrefixC(s, prefix string) bool { return false }
 func ParseLnCol(s string) (line, col int, ok bool) { return 0, 0, false }
 
 func DiagText(s string) string { return "" }
+
+func AllocTotal() int { return 0 }
+
+// Concurrently runs f in n goroutines natively; the single-threaded engine runs it once.
+func Concurrently(n int, f func()) { f() }
+
+// Iterations is 1 under the engine and n natively.
+func Iterations(n int) int { return 1 }
